@@ -252,15 +252,19 @@ def check(ctx):
         wc = [c for c in walk_own(w.node) if method_call(c, 'write')]
         addr = '%s + bs_id * self.PAGE_SIZE' % start
         wa = {norm(s.targets[0]): norm(s.value) for s in walk_own(w.node) if isinstance(s, ast.Assign)}
-        ok = len(rc) == 1 and [norm(a) for a in rc[0].args[1:]] == [addr, size] and len(wc) == 1 and wa.get(norm(wc[0].args[1])) == addr
+        ok = len(rc) == 1 and [norm(a) for a in rc[0].args[1:]] == [addr, size] and len(wc) == 1 and wa.get(norm(wc[0].args[1]), norm(wc[0].args[1])) == addr
         ctx.inst('R5', r, 'page-address:' + kind, ok, 'read and write of %s data use START + bs_id * PAGE_SIZE and the image size constant' % kind)
     nd2 = Mm.method('new_data')
     g2 = cfg_of(nd2)
     for n, c in g2.find(lambda q: method_call(q, 'set_from_mem_data')):
-        geo = fact_key('addr < self.CALIB_START_ADDR', True) in g2.fact_keys_at(n)
-        cls = [s for s in walk_own(nd2.node) if isinstance(s, ast.Assign) and norm(s.targets[0]) == norm(c.func.value)]
-        ctx.inst('R5', nd2, 'reply-kind:' + ('geo' if geo else 'calib'), len(cls) == 1 and norm(cls[0].value) == ('LighthouseBsGeometry()' if geo else 'LighthouseBsCalibration()'),
-                 'addresses below CALIB_START are geometry, others calibration')
+        # the object that decodes the reply: one constructor per address range (bound in the branch, decoded there or after it)
+        rcv = c.func.value
+        for d in (g2.reaching_defs(n, rcv.id) if isinstance(rcv, ast.Name) else []):
+            geo = fact_key('addr < self.CALIB_START_ADDR', True) in g2.fact_keys_at(d)
+            other = fact_key('addr < self.CALIB_START_ADDR', False) in g2.fact_keys_at(d)
+            dv = g2.def_value(d, rcv.id)
+            ctx.inst('R5', nd2, 'reply-kind:' + ('geo' if geo else 'calib'), (geo or other) and dv is not None and norm(dv) == ('LighthouseBsGeometry()' if geo else 'LighthouseBsCalibration()'),
+                     'addresses below CALIB_START are geometry, others calibration; decoder bound as %s' % (norm(dv) if dv is not None else None))
 
     # =========================== R6: YAML ===================================================
     for cname in ('LighthouseBsGeometry', 'LighthouseCalibrationSweep', 'LighthouseBsCalibration'):
